@@ -116,6 +116,17 @@ def gen_mesh(rng, kind, feat=None):
                 else:
                     cells.append([q[0], q[1], q[2]])
                     cells.append([q[0], q[2], q[3]])
+    if kind == 'tet':
+        # positive orientation by construction (the 'inverted' feature flips one on purpose)
+        for c in cells:
+            a, b, d, e = (pts[i] for i in c)
+            u = [b[k] - a[k] for k in range(3)]
+            v = [d[k] - a[k] for k in range(3)]
+            w = [e[k] - a[k] for k in range(3)]
+            det = (u[0] * (v[1] * w[2] - v[2] * w[1]) - u[1] * (v[0] * w[2] - v[2] * w[0])
+                   + u[2] * (v[0] * w[1] - v[1] * w[0]))
+            if det < 0:
+                c[0], c[1] = c[1], c[0]
     if 'jitter' in feat or kind in ('hex', 'quad'):
         for p in pts:
             if rng.random() < 0.5:
@@ -125,7 +136,8 @@ def gen_mesh(rng, kind, feat=None):
         c[0], c[1] = c[1], c[0]
     # integer affine image (shear + translation): keeps orientation
     sh = rng.choice([0, 1])
-    pts = [[p[0] + sh * p[1] + rng.choice([0, 3]), p[1], p[2] + sh * p[0]] for p in pts]
+    tx = rng.choice([0, 3])
+    pts = [[p[0] + sh * p[1] + tx, p[1], p[2] + sh * p[0]] for p in pts]
     n_ref = len(pts)
     if 'unref' in feat:
         for _ in range(rng.choice([1, 2])):
@@ -298,6 +310,19 @@ def signature_of(hist, cfgq):
 def signature_of0(hist, cfgq):
     """signature of a (minimal) failing history: what shape of history breaks which query"""
     ops = [op for op in hist if op['op'] != 'new']
+    # a leading derivation whose child is the only object used afterwards just builds the object
+    built_by = []
+    while len(ops) > 1 and ops[0]['op'] == 'derive' and \
+            all(o['o'] == ops[0]['o2'] and o['op'] != 'derive' for o in ops[1:]):
+        built_by.append(ops[0]['d'])
+        ops = ops[1:]
+    # derivations in front that only set the scene (objects built from one another)
+    while len(ops) > 3 and ops[0]['op'] == 'derive' and all(o['op'] != 'derive' for o in ops[1:]) \
+            and len({o['o'] for o in ops[1:]}) == 1:
+        built_by.append(ops[0]['d'])
+        ops = ops[1:]
+    if built_by and ops[-1]['op'] == 'effect' and not ops[-1]['e'].startswith('write_') and len(ops) == 1:
+        return {'kind': 'modifier-differs', 'effect': ops[-1]['e'], 'after': 'D:' + built_by[-1]}
     names = []
     for op in ops:
         if op['op'] == 'query':
@@ -330,6 +355,13 @@ def signature_of0(hist, cfgq):
                 # the slot of q was filled by a nested call of another query
                 return {'kind': 'slot-key', 'query': q}
             return {'kind': 'query-after-query', 'query': q, 'first': ops[0]['q']}
+    if last['op'] == 'query' and len(ops) == 4 and ops[0]['op'] == 'derive' and ops[1]['op'] == 'query' \
+            and ops[2]['op'] == 'effect' and ops[1]['o'] == last['o'] and ops[2]['o'] != last['o'] \
+            and {ops[2]['o'], last['o']} == {ops[0]['o'], ops[0]['o2']}:
+        d = ops[0]
+        return {'kind': 'shared-table-modified', 'deriv': d['d'], 'effect': ops[2]['e'],
+                'modified': 'child' if ops[2]['o'] == d['o2'] else 'parent',
+                'queried': 'child' if last['o'] == d['o2'] else 'parent'}
     if last['op'] == 'query' and len(ops) == 3 and ops[0]['op'] == 'derive' and ops[1]['op'] == 'effect':
         d = ops[0]
         return {'kind': 'shared-table-modified', 'deriv': d['d'], 'effect': ops[1]['e'],
@@ -629,6 +661,20 @@ def witness_histories(ctx, fails, cat, cfgq, effects):
                     out.append((f, [{'op': 'new', 'o': 0, 'mesh': m}, e_op(0, a)]))
             elif a.startswith('write_'):
                 f['skipped'] = 'writer not runnable here (stl/tvtk/lxml absent)'
+    # every in-place modifier followed by every derivation (conversions are queries too)
+    extra = {'kind': 'modifier-then-derivation', 'a': '', 'b': '', 'model_confirms': False, 'extra': True}
+    for e in effects:
+        if e['writer']:
+            continue
+        for kind in ('tet', 'hex'):
+            for d in ('to_surface', 'to_facets', 'to_polyhedron'):
+                m = gen_mesh(rng, kind, ['unref'])
+                args = {'reset': True} if e['name'] in ('rotation', 'translation') else \
+                    ({'kind': 'swap01'} if e['name'] == 'assign_connectivity' else {})
+                out.append((extra, [{'op': 'new', 'o': 0, 'mesh': m}, e_op(0, e['name'], args),
+                                    {'op': 'derive', 'o': 0, 'o2': 1, 'd': d}]))
+                out.append((extra, [{'op': 'new', 'o': 0, 'mesh': m}, {'op': 'derive', 'o': 0, 'o2': 1, 'd': d},
+                                    e_op(0, e['name'], args), {'op': 'derive', 'o': 0, 'o2': 2, 'd': d}]))
     return out
 
 
@@ -687,6 +733,11 @@ def main(ctx):
     else:
         ctx.obligations.append({'name': 'C19_cfg_ok', 'discharged': False, 'assumptions': [],
                                 'note': 'translator failed closed'})
+    if ctx.tier == 'thorough' and proof_ok and hasattr(ctx, 'coqchk'):
+        if not ctx.coqchk('C19/Props.v'):
+            ctx.violation('proof-broken', {}, 'coqchk accepts C19/Props.vo and its dependencies',
+                          'it does not', 'coqchk FV.C19.Props', found_input=False,
+                          signature={'kind': 'coqchk'})
     ctx.checker_cmd = ('cd /verif/coq && make C19/Props.vo C19/gen/Status.vo (coqc 8.16.1) + Print Assumptions '
                        'of each theorem; gen/CacheCfg.v and gen/Status.v regenerated from the tree under test')
     ctx.notes['cfg_ok'] = cfg_ok
@@ -775,15 +826,16 @@ def main(ctx):
         explained = set()
         if cands:
             cres = run_impl(ctx, cands, tag='cand')
+            best = {}
             for c, r, n in zip(cands, cres, owner):
                 kind = unexplained[n][2]
                 if still_fails(r, kind):
                     sig = signature_of(c, cfgq)
-                    if sig['kind'] != 'other':
-                        explained.add(n)
-                        key = json.dumps(sig, sort_keys=True)
-                        ps = problems(c, r)
-                        found.setdefault(key, (sig, c, ps[-1][2], kind))
+                    if sig['kind'] != 'other' and (n not in best or len(c) < len(best[n][1])):
+                        best[n] = (sig, c, problems(c, r)[-1][2], kind)
+            for n, (sig, c, det, kind) in best.items():
+                explained.add(n)
+                found.setdefault(json.dumps(sig, sort_keys=True), (sig, c, det, kind))
         rest = [u for n, u in enumerate(unexplained[:60]) if n not in explained]
         ctx.notes['failing_long_histories'] = len(unexplained)
         ctx.notes['explained_by_small_history'] = len(explained)
